@@ -328,7 +328,9 @@ def run_c07(rep, tier, seed):
 
 
 # ------------------------------------------------------------------------------------------------ C20
-COMMENTS = ["", "plain comment", "  leading and trailing  ", "# hash", "C 1.0 2.0 3.0", "12", "tabs\tinside", "unicode µ Å ü", "a" * 300, "-1.0e+05", "'quotes' \"double\"", "\\back\\slash"]
+COMMENTS = ["", "plain comment", "  leading and trailing  ", "# hash", "C 1.0 2.0 3.0", "12", "tabs\tinside", "unicode µ Å ü", "a" * 300, "-1.0e+05", "'quotes' \"double\"", "\\back\\slash",
+            # characters some text layers treat as line separators: only "\n" ends the comment line of an XYZ block
+            "step 12\rE=-1.0", "frame 3\rH 0.0 0.0 0.0", "form\x0cfeed", "vt\x0btab", "fs\x1cgs\x1d", "nel\x85 ls\u2028 ps\u2029"]
 
 
 def c20_roundtrip_case(elems, coords, comment):
